@@ -64,7 +64,9 @@ Definition run_case (c : case) : bool :=
   | CTop nl Lx Rx keysL keysR impl =>
       let kl := fun i => nth i keysL None in let kr := fun i => nth i keysR None in
       all2 (fun m i => Z.eqb (block_size m) (block_size i)) (n_largest_blocks nl kl kr Lx Rx) impl &&
-      forallb (fun i => existsb (blk_eqb i) (block_counts kl kr Lx Rx)) impl
+      forallb (fun i => existsb (blk_eqb i) (block_counts kl kr Lx Rx)) impl &&
+      (* no block listed twice (equal-sized blocks may come in any order, but each at most once) *)
+      forallb (fun i => Nat.eqb (length (filter (blk_eqb i) impl)) 1) impl
   end.
 """
 
@@ -404,6 +406,11 @@ def _build_cum(case, res, ev, rank, dss, terms, labels, bad):
     adm_pairs = sum(1 for l in range(ev.n) for r in range(ev.n) if adm_py(ltcc, rank, dss, l, r))
     if [int(x["match_key"]) for x in res["cum"]] != list(range(len(case["rules"]))):
         bad.append(("cumulative", f"match keys {[x['match_key'] for x in res['cum']]}"))
+    for x in res["cum"]:
+        k = int(x["match_key"])
+        if not (0 <= k < len(case["rules"])) or x["blocking_rule"] != rule_sql(case["rules"][k]):
+            bad.append(("cumulative", f"row with match_key {x['match_key']} is labelled with rule {x['blocking_rule']!r}; "
+                                      f"rule {k} is {rule_sql(case['rules'][k]) if 0 <= k < len(case['rules']) else None!r}"))
     run = 0
     for k, (rc, cum, st, ca) in enumerate(impl):
         if rc != pc.get(k, 0):
@@ -444,6 +451,8 @@ def _build_top(case, res, ev, terms, labels, bad):
         got = [a * b for _, a, b in impl_t]
         if got != sizes[:case["n_largest"]]:
             bad.append(("n_largest", f"rule {case['top_rule']!r}: listed block sizes {got} but the largest are {sizes[:case['n_largest']]}"))
+        if len({tuple(k) for k, _, _ in impl_t}) != len(impl_t):
+            bad.append(("n_largest", f"rule {case['top_rule']!r}: a block is listed twice: {impl_t}"))
         for k, a, b in impl_t:
             if blocks.get(tuple(k)) != [a, b]:
                 bad.append(("n_largest", f"listed block {k} ({a} x {b}) is not a block of the data ({blocks.get(tuple(k))})"))
@@ -487,19 +496,25 @@ WITNESS_EXPLODE = {"link_type": "dedupe_only", "rule": {"blocking_rule": "l.arr 
 
 
 def replay_witness_explode():
-    """count_comparisons_from_blocking_rule on an exploding rule vs predict() -> (reproduced, post, predict)"""
+    """count_comparisons_from_blocking_rule on an exploding rule vs predict()
+    -> (reproduced, (pre, post), predict count, (pre, post) of the known wrong answer = array equality)"""
     import splink.comparison_library as cl
     from splink import SettingsCreator
     from splink.blocking_analysis import count_comparisons_from_blocking_rule
     w = WITNESS_EXPLODE
-    d = pd.DataFrame([{"unique_id": i, "a": "x", "arr": w["arr_by_uid_mod_6"][i % 6]} for i in range(w["n"])])
+    arrs = [w["arr_by_uid_mod_6"][i % 6] for i in range(w["n"])]
+    d = pd.DataFrame([{"unique_id": i, "a": "x", "arr": arrs[i]} for i in range(w["n"])])
     d["a"] = d["a"].astype("string")
     r = count_comparisons_from_blocking_rule(table_or_tables=[d], blocking_rule=w["rule"], link_type=w["link_type"],
                                              db_api=su.make_api("duckdb"))
-    post = int(r["number_of_comparisons_to_be_scored_post_filter_conditions"])
+    got = (int(r["number_of_comparisons_generated_pre_filter_conditions"]), int(r["number_of_comparisons_to_be_scored_post_filter_conditions"]))
     s = SettingsCreator(link_type=w["link_type"], comparisons=[cl.ExactMatch("a")], blocking_rules_to_generate_predictions=[w["rule"]])
     want = len(su.linker([d], s, "duckdb").inference.predict().as_record_dict())
-    return post != want, post, want
+    # the recorded defect: arrays_to_explode ignored, arrays compared as whole values
+    eq = lambda a, b: a is not None and b is not None and a == b  # noqa: E731
+    known_wrong = (sum(1 for a in arrs for b in arrs if eq(a, b)),
+                   sum(1 for i in range(len(arrs)) for j in range(i + 1, len(arrs)) if eq(arrs[i], arrs[j])))
+    return got[1] != want, got, want, known_wrong
 
 
 WITNESS_STALE = {"link_type": "dedupe_only", "rule": "l.a = r.a", "table_name": "tt",
